@@ -184,7 +184,7 @@ Definition css_ok (c : list cfile_z * list Z * list (Z * list Z) * list (Z * lis
   let '(fs, ents, dump, text) := c in
   let g := map mk_cfile fs in
   let m := map (fun c => (Z.of_nat (snd (fst c)), map Z.of_nat (snd c))) (css_chunks g (map Z.to_nat ents)) in
-  wf_cgraphb g && forallb (fun e => (Z.to_nat e <? length g)%nat) ents &&
+  wf_cgraphb g && no_zero_targetb g && forallb (fun e => (Z.to_nat e <? length g)%nat) ents &&
   list_eqb zchunk_eqb m dump
   && (length m =? length text)%nat
   && forallb (fun t => match find (fun x => fst x =? fst t) m with
